@@ -104,7 +104,7 @@ func CutCommand(i int) (state string, b []byte) {
 
 // ScaleShapes lists the shapes of the scale axis.
 var ScaleShapes = []string{
-	"search-nest-closed", "search-nest-open", "search-not", "search-or", "list-nest", "fetch-attrs", "status-attrs", "store-flags",
+	"search-nest-closed", "search-nest-open", "search-nest-open-lines", "search-not", "search-or", "list-nest", "fetch-attrs", "status-attrs", "store-flags",
 	"append-flags", "id-pairs", "seqset-commas", "seqset-digits", "fetch-section-digits", "partial-digits", "literal-digits", "tag-long", "atom-long", "quoted-long",
 	"quoted-escapes", "noop-garbage", "spaces", "errors", "errors-then-noop", "bare-lf-lines", "open-line", "literal-big", "nul-line", "xff-line",
 }
@@ -118,6 +118,10 @@ func ScaleInput(shape string, n int) []byte {
 		return []byte(t + "SEARCH " + rep("(", n) + "ALL" + rep(")", n) + "\r\n")
 	case "search-nest-open":
 		return []byte(t + "SEARCH " + rep("(", n) + "\r\n")
+	case "search-nest-open-lines":
+		// n levels of unclosed nesting spread over separate erroneous lines of 60 levels each (state that a failed
+		// command leaves behind accumulates over the session)
+		return []byte(rep(t+"SEARCH "+rep("(", 60)+"\r\n", (n+59)/60))
 	case "search-not":
 		return []byte(t + "SEARCH " + rep("NOT ", n) + "ALL\r\n")
 	case "search-or":
@@ -344,6 +348,7 @@ type wsess struct {
 	first     bool
 	classes   []string
 	input     []byte
+	alive     bool // the last complete line was answered and the connection is open
 }
 
 func (s *wsess) add(clause, sig, msg string) {
@@ -589,7 +594,80 @@ func (s *wsess) feed(input []byte) {
 		if !open || !answered {
 			return
 		}
+		s.alive = true
 	}
+}
+
+// probeSuite decides "the session stays usable for following well-formed commands" beyond the marker NOOP: on a
+// session that is still open after the input, a known state is re-established (LOGIN may be refused if the session is
+// already authenticated; SELECT must succeed) and one well-formed command per parser path — nested search keys,
+// parenthesised fetch attributes with a section and a header list, quoted strings, a synchronising literal, list
+// patterns, status attributes — must be answered OK: state that the input left behind in the parser or the session
+// (nesting counters, literal mode, a pending continuation) shows up here.
+func (s *wsess) probeSuite(state string) {
+	type probe struct {
+		line string
+		lit  string // literal data sent after the continuation request
+		must bool
+	}
+	probes := []probe{
+		{line: "LOGIN user pass"},
+		{line: "SELECT INBOX", must: true},
+		{line: "SEARCH OR (SEEN) (NOT (OR DELETED (FLAGGED)))", must: true},
+		{line: "UID FETCH 1:* (FLAGS BODY.PEEK[HEADER.FIELDS (TO SUBJECT)])", must: true},
+		{line: `UID SEARCH HEADER TO "x y" NOT SUBJECT "q"`, must: true},
+		{line: "SEARCH SUBJECT {3}", lit: "abc", must: true},
+		{line: `LIST "" "*"`, must: true},
+		{line: "STATUS INBOX (MESSAGES UIDNEXT UNSEEN)", must: true},
+	}
+	for i, p := range probes {
+		tag := fmt.Sprintf("pr%d", 100+i)
+		s.c.Send([]byte(tag + " " + p.line + "\r\n"))
+		open := s.c.WaitQuiet()
+		rs := s.take()
+		if p.lit != "" && open {
+			cont := false
+			for _, r := range rs {
+				if r.cont {
+					cont = true
+				}
+			}
+			if cont {
+				s.c.Send([]byte(p.lit + "\r\n"))
+				open = s.c.WaitQuiet()
+				rs = append(rs, s.take()...)
+			}
+		}
+		if open {
+			// the command is executed by the session goroutine: the marker pair makes its reply observable without timing
+			var before []reply
+			before, _, open = s.sync()
+			rs = append(rs, before...)
+		}
+		status := "none"
+		for _, r := range rs {
+			if r.tag == tag {
+				status = r.status
+			}
+		}
+		if !p.must {
+			if !open {
+				s.add("UNUSABLE", "probe:"+strings.Fields(p.line)[0]+":closed", fmt.Sprintf("after the input %s (state %s) the well-formed command %q closes the connection (server sent %s)", Show(s.input), state, p.line, shortReply(rs)))
+				return
+			}
+			continue
+		}
+		if status != "OK" {
+			kw := strings.Fields(p.line)
+			k := kw[0]
+			if k == "UID" {
+				k += " " + kw[1]
+			}
+			s.add("UNUSABLE", "probe:"+k+":"+status, fmt.Sprintf("after the input %s (state %s) the session is open and answers NOOP, but the well-formed command %q is answered %s (server sent %s)", Show(s.input), state, p.line, status, shortReply(rs)))
+			return
+		}
+	}
+	s.classes = append(s.classes, "probed")
 }
 
 // dropCont removes continuation requests that have been acted upon.
@@ -769,10 +847,16 @@ func (f *wfix) runCase(c WCase) (map[string]string, string, error) {
 			s.bulk(input)
 		} else {
 			s.feed(input)
+			if s.alive {
+				s.probeSuite(state)
+			}
 		}
 		pc.CloseWrite()
 	default:
 		s.feed(input)
+		if s.alive {
+			s.probeSuite(state)
+		}
 		pc.CloseWrite()
 	}
 	pc.WaitClosed()
